@@ -497,6 +497,9 @@ class SAMIWriter(BaseWriter):
             if later:
                 last_sync = later[0]
                 last_sync.insert_before(sync)
+            else:
+                # No sync written so far (the primary language is empty)
+                sami.body.append(sync)
         return sami, sync
 
     def _recreate_blank_tag(self, sami, caption, lang, primary, captions):
